@@ -10,8 +10,9 @@
 (* mirrors the C loop statement by statement (trailing comments quote the  *)
 (* C statement); scalars are native TLC integers.                          *)
 (*                                                                         *)
-(* One TLC state per (alg, N, W, P, DG); the invariant of the state runs   *)
-(* the algorithm on EVERY scalar of KSet and compares with (k * P) mod N.  *)
+(* One parameter tuple (alg, N, W, P, DG) per behaviour; its second state  *)
+(* (go = TRUE, so that the TLC workers share the tuples) runs the          *)
+(* algorithm on EVERY scalar of KSet and compares with (k * P) mod N.      *)
 (*   alg  algorithm or recoding under check                                *)
 (*   N    group order (prime), bits(N) plays bn_bits(n)                    *)
 (*   W    RLC_WIDTH or RLC_DEPTH of the algorithm (2 where it has none)    *)
@@ -32,11 +33,12 @@ CONSTANTS Orders,      \* group orders (primes)
           Widths,      \* RLC_WIDTH values
           Depths,      \* RLC_DEPTH values of the comb methods
           Digs,        \* RLC_DIG values
-          AllBases,    \* TRUE: every P in 1..N-1; FALSE: P in {1, 3}
-          FPSlack      \* RLC_FP_BITS - bits(N)
+          AllBases,    \* TRUE: every P in 1..N-1 (single-scalar algorithms); FALSE: P in {1, 3}
+          FPSlack,     \* RLC_FP_BITS - bits(N)
+          GlvOrders    \* group orders = 1 mod 3 for the GLV methods
 
-VARIABLES alg, N, W, P, DG
-vars == <<alg, N, W, P, DG>>
+VARIABLES alg, N, W, P, DG, go
+vars == <<alg, N, W, P, DG, go>>
 
 UNDEF == -1
 ERR   == -2
@@ -67,12 +69,12 @@ DblN(x, j) == IF j <= 0 THEN x ELSE DblN(Dbl(x), j - 1)      \* j times ep_dbl(r
 Exp(k)     == Mod(k * P, N)                                  \* [k]P, the specification
 ExpOf(k, b) == Mod(k * b, N)
 
-Chk(c, msg) == IF c THEN TRUE ELSE PrintT(<<"@@", "FAIL", msg>>) /\ FALSE
+Chk(c, msg) == IF c THEN TRUE ELSE PrintT(<<"@@", "FAIL", ToString(msg)>>) /\ FALSE
 
 Specials == UNION {{2^j - 1, 2^j, 2^j + 1} : j \in 0..10}
 KSet == LET S == ((-2 * N)..(3 * N)) \cup Specials IN S \cup {-x : x \in S}
 KPair == (-N)..(2 * N)                                        \* scalars of the two-scalar algorithms
-QBases == IF AllBases THEN 1..(N - 1) ELSE {2, N - 1}         \* second base point
+QBases == {2, N - 1}                                          \* second base point
 
 (***************************************************************************)
 (* Tables are functions 0..(size-1) -> point; a slot never written UNDEF.  *)
@@ -306,7 +308,7 @@ RECURSIVE CombWin(_, _, _, _, _, _)
 CombWin(m, n0, p1, l, j, acc) ==
     IF j < 0 THEN acc
     ELSE CombWin(m, n0, p1 - l, l, j - 1,
-                 2 * acc + (IF p1 < n0 /\ p1 >= 0 /\ Bit(m, p1) = 1 THEN 1 ELSE 0))
+                 2 * acc + (IF p1 < n0 /\ Bit(m, p1) = 1 THEN 1 ELSE 0))
 RECURSIVE CombsLoop(_, _, _, _, _, _, _)
 CombsLoop(m, n0, t, l, i, p0, r) ==
     IF i < 0 THEN r                                            \* for (i = l - 2; i >= 0; i--)
@@ -340,7 +342,7 @@ RECURSIVE CombWin1(_, _, _, _, _, _, _)
 CombWin1(m, n0, p0, dd, j, ok, acc) ==
     IF j < 0 THEN acc
     ELSE CombWin1(m, n0, p0 - dd, dd, j - 1, ok,
-                  2 * acc + (IF ok /\ p0 < n0 /\ p0 >= 0 /\ Bit(m, p0) = 1 THEN 1 ELSE 0))
+                  2 * acc + (IF ok /\ p0 < n0 /\ Bit(m, p0) = 1 THEN 1 ELSE 0))
 RECURSIVE CombdLoop(_, _, _, _, _, _)
 CombdLoop(m, n0, t, i, p1, r) ==
     IF i < 0 THEN r                                            \* for (i = e - 1; i >= 0; i--)
@@ -425,7 +427,8 @@ WinLoop(k, w, i, l, acc) ==
     ELSE Append(acc, GetBits(k, i, l - 1))                     \* win[j++] = get_bits(k, i, bn_bits(k) - 1)
 RecWin(k, w, cap) ==
     LET l == Bits(k)                                           \* l = bn_bits(k)
-    IN  IF l = 0 THEN [st |-> ERR, win |-> <<>>]               \* RLC_CEIL(l, w) = ((int)-1 converted to size_t) / w + 1 > *len: THROW(ERR_NO_BUFFER)
+    IN  IF l = 0 /\ w = 1 THEN [st |-> UNDEF, win |-> <<>>]    \* RLC_CEIL(0, 1) = SIZE_MAX / 1 + 1 wraps to 0, test passes; then i < l - w = SIZE_MAX: runaway loop
+        ELSE IF l = 0 THEN [st |-> ERR, win |-> <<>>]          \* RLC_CEIL(l, w) = ((int)-1 converted to size_t) / w + 1 > *len: THROW(ERR_NO_BUFFER)
         ELSE IF cap < Ceil(l, w) THEN [st |-> ERR, win |-> <<>>]   \* if (*len < RLC_CEIL(l, w)) THROW
         ELSE IF l < w THEN [st |-> UNDEF, win |-> <<>>]        \* i < l - w: int l minus size_t w wraps to a huge size_t, the loop runs off the buffer
         ELSE [st |-> 0, win |-> WinLoop(k, w, 0, l, <<>>)]
@@ -527,10 +530,144 @@ MulSimLot(k, m, q) ==
     IN  IF NafNoBuf(k, l) \/ NafNoBuf(m, l) THEN ERR           \* _l[i] = l; bn_rec_naf(&naf[i * l], &_l[i], k[i], 2)
         ELSE LotLoop(RecNaf(k, 2), RecNaf(m, 2), p0, p1, l - 1, 0)
 
+
+(***************************************************************************)
+(* 7. GLV: ep_curve_set_endom's lattice basis (relic_ep_curve.c with       *)
+(* bn_gcd_ext_mid of relic_bn_gcd.c), bn_rec_glv, ep_mul_glv_imp and       *)
+(* ep_mul_reg_glv.  N = 1 mod 3, lam a primitive cube root of unity mod N, *)
+(* ep_psi multiplies by lam.                                               *)
+(***************************************************************************)
+Lambdas == {x \in 2..(N - 1) : (x * x + x + 1) % N = 0}
+Psi(x, lam) == IF x < 0 THEN UNDEF ELSE (lam * x) % N          \* ep_psi
+Sg(x) == IF x < 0 THEN -1 ELSE 1                               \* bn_sign: -1 for RLC_NEG; zero is RLC_POS
+FloorDiv(a, b) == IF b > 0 THEN a \div b ELSE (-a) \div (-b)   \* bn_div (bn_div_imp adjusts to the floor)
+Isqrt(u) == CHOOSE r \in 0..u : r * r <= u /\ (r + 1) * (r + 1) > u   \* bn_srt
+
+(* bn_gcd_ext_mid(c, d, e, f, a, b): partial extended Euclid, outputs two short vectors *)
+RECURSIVE GemLoop(_)
+GemLoop(st) ==
+    IF st.v = 0 THEN st                                        \* while (!bn_is_zero(v))
+    ELSE LET q  == st.u \div st.v                              \* bn_div_rem(q, r, u, v)
+             r  == st.u % st.v
+             x2 == st.t - q * st.x                             \* bn_mul(s, q, x); bn_sub(s, t, s)
+             s1 == [st EXCEPT !.u = st.v, !.v = r, !.t = st.x, !.x = x2]   \* u = v; v = r; t = x; x = s
+             s2 == IF st.wait THEN [s1 EXCEPT !.e = r, !.f = -x2, !.wait = FALSE] ELSE s1   \* if (wait) { e = r; f = -x; wait = 0; }
+         IN  GemLoop(IF s2.u >= st.p                           \* if (bn_cmp(u, p) != RLC_LT)
+                     THEN [s2 EXCEPT !.c = r, !.d = -x2, !.w = s2.u, !.y = -s2.t, !.wait = TRUE]   \* c = r; d = -x; w = u; y = -t; wait = 1
+                     ELSE s2)
+GcdExtMid(a, b) ==
+    LET u0 == IF Abs(a) > Abs(b) THEN Abs(a) ELSE Abs(b)       \* if (bn_cmp_abs(a, b) == RLC_GT) u = |a|, v = |b| else swapped
+        v0 == IF Abs(a) > Abs(b) THEN Abs(b) ELSE Abs(a)
+        st == GemLoop([u |-> u0, v |-> v0, p |-> Isqrt(u0), x |-> 1, t |-> 0, wait |-> FALSE,   \* bn_srt(p, u); x = 1; t = 0
+                       c |-> 0, d |-> 0, e |-> 0, f |-> 0, w |-> 0, y |-> 0])
+    IN  IF st.w * st.w + st.y * st.y < st.e * st.e + st.f * st.f   \* if (bn_cmp(t, q) == RLC_LT) { e = w; f = y; }
+        THEN [st EXCEPT !.e = st.w, !.f = st.y] ELSE st
+(* the six constants v1[0..2], v2[0..2] as ep_curve_set_endom leaves them *)
+EndomBasis(lam) ==
+    LET g    == GcdExtMid(lam, N)                              \* bn_gcd_ext_mid(v1[1], v1[2], v2[1], v2[2], m, r)
+        bits == Bits(N)
+        det  == g.c * g.f - g.d * g.e                          \* m = v1[1] * v2[2] - v1[2] * v2[1]
+        m1   == Sg(det) * (Abs(det) \div 2)                    \* bn_hlv(m, m)
+        x1   == g.f * 2^(bits + 1)                             \* bn_lsh(v1[0], v2[2], bits + 1)
+        y1   == IF x1 >= 0 THEN x1 + m1 ELSE x1 - m1           \* if (bn_sign(v1[0]) == RLC_POS) add m else sub m
+        m2   == 2 * m1                                         \* bn_dbl(m, m)
+        q1   == FloorDiv(y1, m2)                               \* bn_div(v1[0], v1[0], m)
+        x2   == g.d * 2^(bits + 1)                             \* bn_lsh(v2[0], v1[2], bits + 1)
+        y2   == IF x2 >= 0 THEN x2 + m2 ELSE x2 - m2           \* add / sub m, which is already doubled here
+        q2   == FloorDiv(y2, m2)                               \* bn_div(v2[0], v2[0], m)
+    IN  [v10 |-> IF q1 < 0 THEN q1 + 1 ELSE q1,                \* if (bn_sign(v1[0]) == RLC_NEG) bn_add_dig(v1[0], v1[0], 1)
+         v11 |-> g.c, v12 |-> g.d,
+         v20 |-> -(IF q2 < 0 THEN q2 + 1 ELSE q2),             \* same, then bn_neg(v2[0], v2[0])
+         v21 |-> g.e, v22 |-> g.f, det |-> det]
+
+(* bn_rec_glv(k0, k1, k, n, v1, v2); digit vectors of k and the v's are magnitudes *)
+RoundShift(x, bits) == (x \div (2^(bits + 1))) + ((x \div (2^bits)) % 2)   \* r = bit bits; >> (bits + 1); bn_add1_low(b1, b1, r)
+RecGlv(k, B) ==
+    LET bits == Bits(N)
+        b1 == RoundShift(Abs(k) * Abs(B.v10), bits)            \* b1 = (k * v10) >> (bits + 1), rounded
+        b2 == RoundShift(Abs(k) * Abs(B.v20), bits)            \* b2 = (k * v20) >> (bits + 1), rounded
+        c1 == Sg(B.v10) * b1
+        c2 == Sg(B.v20) * b2
+    IN  [k0 |-> Abs(k) - c1 * B.v11 - c2 * B.v21,              \* k0 = k - b1 * v11 - b2 * v21 with sign = v[0].sign ^ v[1].sign
+         k1 |-> -(c1 * B.v12) - (c2 * B.v22)]                  \* k1 = 0 - b1 * v12 - b2 * v22 with sign = v[0].sign ^ v[2].sign
+
+(* ep_mul_glv_imp *)
+RECURSIVE GlvLoop(_, _, _, _, _, _, _)
+GlvLoop(a0, a1, t, lam, flip, i, r) ==
+    IF i < 0 THEN r                                            \* for (i = l - 1; i >= 0; i--, t0--, t1--)
+    ELSE LET r2 == Dbl(r)                                      \* ep_dbl(r, r)
+             n0 == NafAt(a0, i)                                \* n0 = *t0
+             n1 == NafAt(a1, i)                                \* n1 = *t1
+             ra == IF n0 > 0 THEN Add(r2, TabGet(t, n0 \div 2))            \* ep_add(r, r, t[n0 / 2])
+                   ELSE IF n0 < 0 THEN Sub(r2, TabGet(t, (-n0) \div 2))    \* ep_sub(r, r, t[-n0 / 2])
+                   ELSE r2
+             q  == LET z == Psi(TabGet(t, Abs(n1) \div 2), lam)            \* ep_psi(q, t[n1 / 2]) resp. t[-n1 / 2]
+                   IN  IF flip THEN Neg(z) ELSE z                          \* if (s0 != s1) ep_neg(q, q)
+             rb == IF n1 > 0 THEN Add(ra, q)                   \* ep_add(r, r, q)
+                   ELSE IF n1 < 0 THEN Sub(ra, q)              \* ep_sub(r, r, q)
+                   ELSE ra
+         IN  GlvLoop(a0, a1, t, lam, flip, i - 1, rb)
+MulGlvImp(k, lam) ==
+    IF k = 0 THEN 0                                            \* ep_mul_lwnaf: if (bn_is_zero(k)) ep_set_infty(r)
+    ELSE LET m  == Mod(k, N)                                   \* bn_mod(m, k, n)
+             kk == RecGlv(m, EndomBasis(lam))                  \* bn_rec_glv(k0, k1, m, n, v1, v2)
+             s0 == Sg(kk.k0)                                   \* s0 = bn_sign(k0)
+             s1 == Sg(kk.k1)                                   \* s1 = bn_sign(k1)
+             t  == IF s0 = 1 THEN EpTab(P, W) ELSE EpTab(Neg(P), W)   \* ep_tab(t, p, w) or ep_neg(q, p); ep_tab(t, q, w)
+         IN  IF NafNoBuf(kk.k0, FPBITS + 1) \/ NafNoBuf(kk.k1, FPBITS + 1) THEN ERR   \* l0 = l1 = RLC_FP_BITS + 1; bn_rec_naf x 2
+             ELSE LET a0 == RecNaf(kk.k0, W)
+                      a1 == RecNaf(kk.k1, W)
+                  IN  GlvLoop(a0, a1, t, lam, s0 # s1, Max(Len(a0), Len(a1)) - 1, 0)   \* l = RLC_MAX(l0, l1); ep_set_infty(r)
+
+(* ep_mul_reg_glv; u and w are the two registers of the table scan *)
+RECURSIVE RegGlvLoop(_, _, _, _, _, _, _, _, _)
+RegGlvLoop(g0, g1, t, lam, sdiff, i, r, u, w) ==
+    IF i < 0 THEN r                                            \* for (i = l - 1; i >= 0; i--)
+    ELSE LET r1 == DblN(r, W - 1)                              \* RLC_WIDTH - 1 doublings
+             n0 == g0[i + 1]                                   \* n0 = reg[0][i]
+             n1 == g1[i + 1]                                   \* n1 = reg[1][i]
+             i0 == Abs(n0) \div 2                              \* c0 = (n0 >> 7); n0 = ((n0 ^ c0) - c0) >> 1
+             i1 == Abs(n1) \div 2
+             u1 == IF i0 \in DOMAIN t THEN t[i0] ELSE u        \* fp_copy_sec(u, t[j], j == n0)
+             w1 == IF i1 \in DOMAIN t THEN t[i1] ELSE w        \* fp_copy_sec(w, t[j], j == n1)
+             q  == IF n0 < 0 THEN Neg(u1) ELSE u1              \* ep_neg(q, u); fp_copy_sec(q->y, u->y, c0 == 0)
+             ra == Add(r1, q)                                  \* ep_add(r, r, q)
+             w2 == Psi(w1, lam)                                \* ep_psi(w, w)
+             w3 == IF (n1 < 0) # sdiff THEN Neg(w2) ELSE w2    \* ep_neg(q, w); fp_copy_sec(w->y, q->y, (c1 != 0) ^ (s[0] != s[1]))
+         IN  RegGlvLoop(g0, g1, t, lam, sdiff, i - 1, Add(ra, w3), u1, w3)   \* ep_add(r, r, w)
+GlvRegL == Ceil(Max(Bits(N) \div 2, 1), W - 1)                 \* bn_rec_reg's l for n = bn_bits(n) >> 1
+MulRegGlv(k, lam) ==
+    IF k = 0 THEN 0                                            \* ep_mul_lwreg: if (bn_is_zero(k)) ep_set_infty(r)
+    ELSE LET kk == RecGlv(Mod(k, N), EndomBasis(lam))          \* bn_mod(m[0], k, n); bn_rec_glv(m[0], m[1], m[0], n, v1, v2)
+             s0 == Sg(kk.k0)                                   \* s[i] = bn_sign(m[i])
+             s1 == Sg(kk.k1)
+             b0 == Abs(kk.k0) % 2 = 0                          \* bn_abs(m[i], m[i]); b[i] = bn_is_even(m[i])
+             b1 == Abs(kk.k1) % 2 = 0
+             m0 == IF b0 THEN Abs(kk.k0) + 1 ELSE Abs(kk.k0)   \* m[i]->dp[0] |= b[i]
+             m1 == IF b1 THEN Abs(kk.k1) + 1 ELSE Abs(kk.k1)
+             pq == IF s0 = 1 THEN P ELSE Neg(P)                \* ep_neg(q, t[0]); dv_copy_sec(q->y, t[0]->y, s[0] == RLC_POS)
+             t  == EpTab(pq, W)                                \* ep_tab(t, q, RLC_WIDTH): t[0] = q
+             nb == Bits(N) \div 2                              \* bn_bits(n) >> 1
+             r0 == RecReg(m0, nb, W, FPBITS + 1)               \* l = RLC_FP_BITS + 1; bn_rec_reg(reg[0], &l, m[0], bn_bits(n) >> 1, w)
+             r1 == RecReg(m1, nb, W, FPBITS + 1)
+         IN  IF r0.err \/ r1.err THEN ERR
+             ELSE IF r0.ovf \/ r1.ovf THEN UNDEF
+             ELSE LET r  == RegGlvLoop(r0.digs, r1.digs, t, lam, s0 # s1, r1.len - 1, 0, UNDEF, UNDEF)
+                      ua == Sub(r, t[0])                       \* ep_sub(u, r, t[0]); t[0] is q = +-P
+                      ra == IF b0 THEN ua ELSE r               \* fp_copy_sec(r, u, b[0])
+                      wq == Psi(t[0], lam)                     \* ep_psi(w, t[0])
+                      qq == IF s0 = s1 THEN wq ELSE Neg(wq)    \* ep_neg(q, w); fp_copy_sec(q->y, w->y, s[0] == s[1])
+                      ub == Sub(ra, qq)                        \* ep_sub(u, r, q)
+                  IN  IF b1 THEN ub ELSE ra                    \* fp_copy_sec(r, u, b[1])
+(* ep_mul_reg_glv needs both sub-scalars inside bn_rec_reg's range for n = bits(n) >> 1 *)
+GlvRegFits(kk) == /\ Abs(kk.k0) < 2^((GlvRegL + 1) * (W - 1))
+                  /\ Abs(kk.k1) < 2^((GlvRegL + 1) * (W - 1))
+
 (***************************************************************************)
 (* State space: one state per parameter tuple                              *)
 (***************************************************************************)
-WAlgs   == {"lwnaf", "lwreg", "slide", "fix_lwnaf", "sim_inter", "sim_trick",
+GlvAlgs == {"glv_basis", "glv_imp", "glv_reg"}
+WAlgs   == {"glv_imp", "glv_reg", "lwnaf", "lwreg", "slide", "fix_lwnaf", "sim_inter", "sim_trick",
             "rec_naf", "rec_reg", "rec_slw", "rec_win", "tab"}      \* parameterised by RLC_WIDTH
 DAlgs   == {"combs", "combd"}                                      \* parameterised by RLC_DEPTH
 DigAlgs == {"lwreg", "basic", "dig", "monty", "rec_reg"}                  \* RLC_DIG matters
@@ -538,12 +675,13 @@ PairAlgs == {"sim_inter", "sim_trick", "sim_joint", "sim_lot", "rec_jsf"}
 WidthsOf(a) == IF a \in WAlgs THEN Widths ELSE IF a \in DAlgs THEN Depths ELSE {2}
 DigsOf(a, n) == IF a = "monty" THEN {Bits(n)} \cup Digs   \* a digit as wide as the order: bits(n) a multiple of RLC_DIG
                 ELSE IF a \in DigAlgs THEN Digs ELSE {64}
-BasesOf(a, n) == IF a \in {"rec_naf", "rec_reg", "rec_slw", "rec_win", "rec_jsf"} THEN {1}
-                 ELSE IF AllBases THEN 1..(n - 1) ELSE {1, 3}
+BasesOf(a, n) == IF a \in {"glv_basis", "rec_naf", "rec_reg", "rec_slw", "rec_win", "rec_jsf"} THEN {1}
+                 ELSE IF AllBases /\ a \notin PairAlgs THEN 1..(n - 1) ELSE {1, 3}
 
-Init == /\ alg \in Algs /\ N \in Orders
+Init == /\ alg \in Algs /\ N \in (IF alg \in GlvAlgs THEN GlvOrders ELSE Orders)
         /\ W \in WidthsOf(alg) /\ P \in BasesOf(alg, N) /\ DG \in DigsOf(alg, N)
-Next == UNCHANGED vars
+        /\ go = FALSE
+Next == ~go /\ go' = TRUE /\ UNCHANGED <<alg, N, W, P, DG>>
 Spec == Init /\ [][Next]_vars
 
 (***************************************************************************)
@@ -555,37 +693,39 @@ Cnt(c) == PrintT(<<"@@", "CNT", alg, c>>)
 (* single-scalar algorithms: result = [k]P on all of KSet *)
 Single(F(_)) == \A k \in KSet : LET r == F(k) IN Chk(r = Exp(k), Tag(k, r))
 
-InvLwnaf == alg = "lwnaf" => Single(MulLwnaf)
-InvMonty == alg = "monty" => /\ Single(MulMonty)
+InvLwnaf == (go /\ alg = "lwnaf") => Single(MulLwnaf)
+InvMonty == (go /\ alg = "monty") => /\ Single(MulMonty)
                              /\ \A k \in KSet \ {0} :          \* the scalar the ladder walks: bit bits set, = m mod n, used fix-up right
                                   LET ms == MontyScalar(k) IN
                                   /\ ms.l = ms.want /\ Bits(ms.l) = ms.bits + 1
                                   /\ ms.l % N = Mod(k, N)
-InvSlide == alg = "slide" => Single(MulSlide)
-InvBasic == alg = "basic" => Single(MulBasic)
-InvDig   == alg = "dig"   => \A kd \in 0..(IF DG >= 10 THEN 1025 ELSE 2^DG - 1) :
+InvSlide == (go /\ alg = "slide") => Single(MulSlide)
+InvBasic == (go /\ alg = "basic") => Single(MulBasic)
+InvDig   == (go /\ alg = "dig") => \A kd \in 0..(IF DG >= 10 THEN 1025 ELSE 2^DG - 1) :
                                  LET r == MulDig(P, kd) IN Chk(r = Exp(kd), Tag(kd, r))
-InvCombs == alg = "combs" => Single(MulCombs)
-InvCombd == alg = "combd" => Single(MulCombd)
-InvFixBasic == alg = "fix_basic" => Single(MulFixBasic)
+InvCombs == (go /\ alg = "combs") => Single(MulCombs)
+InvCombd == (go /\ alg = "combd") => Single(MulCombd)
+InvFixBasic == (go /\ alg = "fix_basic") => Single(MulFixBasic)
 
 (* ep_mul_lwreg: correct exactly on RegClass; outside it never correct on KSet *)
-InvLwreg == alg = "lwreg" =>
+(* longer scalars: the top digit wraps around int8_t (2^12 - 1 at w = 5: top digit 255 read as -1) *)
+RegExtra == {2^11 - 1, 2^11 + 3, 2^12 - 1, -(2^12 - 1), 2^12 + 1, 2^13 + 5, -(2^13 + 5), 255 * 16, 129 * 16 + 3, 257 * 8}
+InvLwreg == (go /\ alg = "lwreg") =>
     /\ RegBufOK
-    /\ \A k \in KSet : LET r == MulLwreg(k) IN
+    /\ \A k \in KSet \cup RegExtra : LET r == MulLwreg(k) IN
            IF k = 0 \/ RegClass(k) THEN Chk(r = Exp(k), Tag(k, r))
            ELSE Chk(r # Exp(k), <<"lwreg right outside class", Tag(k, r)>>)
 
 (* ep_mul_fix_lwnaf: correct unless the reduced scalar is zero (k = c * n, c # 0), *)
 (* where ep_mul_fix_plain reads naf[-1]                                            *)
 FixLwnafZero(k) == k # 0 /\ Mod(k, N) = 0
-InvFixLwnaf == alg = "fix_lwnaf" =>
+InvFixLwnaf == (go /\ alg = "fix_lwnaf") =>
     \A k \in KSet : LET r == MulFixLwnaf(k) IN
         IF FixLwnafZero(k) THEN Chk(r = UNDEF, Tag(k, r))
         ELSE Chk(r = Exp(k), Tag(k, r))
 
 (* tables *)
-InvTab == alg = "tab" =>
+InvTab == (go /\ alg = "tab") =>
     /\ LET t == EpTab(P, W) IN \A i \in DOMAIN t : t[i] = Exp(2 * i + 1)           \* ep_tab: t[i] = (2i + 1)P
     /\ LET t == SlideTab(P, W) IN \A i \in DOMAIN t : t[i] = Exp(2 * i + 1)        \* ep_mul_slide: 2^(w-1) odd multiples
     /\ W \in Depths =>
@@ -600,7 +740,7 @@ InvTab == alg = "tab" =>
 
 (* recodings *)
 RecRange == 0..Max(3 * N, 1025)
-InvRecNaf == alg = "rec_naf" =>
+InvRecNaf == (go /\ alg = "rec_naf") =>
     \A k \in RecRange : LET s == RecNaf(k, W) IN
         Chk(/\ SumDig(s, 1, 2) = k                                         \* sum naf[i] 2^i = k
             /\ Len(s) <= Bits(k) + 1                                       \* fits the tested buffer
@@ -609,7 +749,7 @@ InvRecNaf == alg = "rec_naf" =>
                    \A j \in (i + 1)..Min(Len(s), i + W - 1) : s[j] = 0     \* non-adjacent form
             /\ (k > 0 => s[Len(s)] > 0),                                   \* leading digit positive (ep_mul_fix_plain)
             <<"rec_naf", W, k, s>>)
-InvRecReg == alg = "rec_reg" =>
+InvRecReg == (go /\ alg = "rec_reg") =>
     \A k \in {x \in RecRange : x % 2 = 1} :
         LET rr == RecReg(k, Bits(N), W, RegL + 1)
             s  == rr.digs
@@ -621,39 +761,71 @@ InvRecReg == alg = "rec_reg" =>
 RECURSIVE SlwVal(_, _, _)
 SlwVal(s, i, v) == IF i > Len(s) THEN v
                    ELSE SlwVal(s, i + 1, IF s[i] = 0 THEN 2 * v ELSE v * (2^Bits(s[i])) + s[i])
-InvRecSlw == alg = "rec_slw" =>
+InvRecSlw == (go /\ alg = "rec_slw") =>
     \A k \in RecRange : LET s == RecSlw(k, W) IN
         Chk(/\ Len(s) <= Bits(k)                                           \* fits the tested buffer
             /\ \A i \in 1..Len(s) : s[i] = 0 \/ (s[i] % 2 = 1 /\ s[i] < 2^W)   \* odd windows of at most w bits: t[win >> 1] in the table
             /\ SlwVal(s, 1, 0) = k,                                        \* left-to-right evaluation gives k back
             <<"rec_slw", W, k, s>>)
-InvRecWin == alg = "rec_win" =>
+InvRecWin == (go /\ alg = "rec_win") =>
     \A k \in RecRange : LET rw == RecWin(k, W, Ceil(Bits(k) + 1, W)) IN
         Chk(IF Bits(k) >= W
             THEN /\ rw.st = 0 /\ SumDig(rw.win, 1, 2^W) = k
                  /\ Len(rw.win) = Ceil(Bits(k), W) /\ \A i \in 1..Len(rw.win) : rw.win[i] < 2^W
             ELSE rw.st # 0,                                                \* k = 0: ERR_NO_BUFFER; 0 < bits(k) < w: runaway loop
             <<"rec_win", W, k, rw>>)
-InvRecJsf == alg = "rec_jsf" =>
+InvRecJsf == (go /\ alg = "rec_jsf") =>
     \A k \in 0..(2 * N), m \in 0..(2 * N) : LET js == RecJsf(k, m) IN
         Chk(/\ SumDig(js[1], 1, 2) = k /\ SumDig(js[2], 1, 2) = m
             /\ Len(js[1]) = Len(js[2]) /\ Len(js[1]) <= JsfOffset(k, m)    \* the two rows do not overlap
-            /\ \A i \in 1..Len(js[1]) : js[1][i] \in {-1, 0, 1} /\ js[2][i] \in {-1, 0, 1},
+            /\ \A i \in 1..Len(js[1]) : js[1][i] \in {-1, 0, 1} /\ js[2][i] \in {-1, 0, 1}
+            /\ \A i \in 1..(Len(js[1]) - 2) :                              \* joint sparse form: of three consecutive columns one is zero
+                   \E j \in i..(i + 2) : js[1][j] = 0 /\ js[2][j] = 0
+            /\ \A i \in 1..(Len(js[1]) - 1) :                              \* adjacent non-zero digits of a row have the same sign
+                   js[1][i] * js[1][i + 1] # -1 /\ js[2][i] * js[2][i + 1] # -1,
             <<"rec_jsf", k, m, js>>)
+
+
+(* GLV *)
+InvGlvBasis == (go /\ alg = "glv_basis") =>
+    /\ Lambdas # {}
+    /\ \A lam \in Lambdas : LET B == EndomBasis(lam) IN
+         /\ Chk(/\ (B.v11 + B.v12 * lam) % N = 0               \* both vectors lie in the lattice {(x, y) : x + y lam = 0 mod n}
+                /\ (B.v21 + B.v22 * lam) % N = 0
+                /\ Abs(B.det) = N,                             \* and generate it
+                <<"glv basis", N, lam, B>>)
+         /\ \A k \in 0..(N - 1) : LET kk == RecGlv(k, B) IN
+              Chk(/\ Mod(kk.k0 + kk.k1 * lam, N) = k           \* k = k0 + k1 lam (mod n)
+                  /\ Bits(Abs(kk.k0)) + 1 <= FPBITS + 1        \* naf0, naf1 [RLC_FP_BITS + 1] of ep_mul_glv_imp
+                  /\ Bits(Abs(kk.k1)) + 1 <= FPBITS + 1,
+                  <<"rec_glv", N, lam, k, kk, B>>)
+InvGlvImp == (go /\ alg = "glv_imp") =>
+    \A lam \in Lambdas : \A k \in KSet : LET r == MulGlvImp(k, lam) IN Chk(r = Exp(k), <<"lam", lam, Tag(k, r)>>)
+(* ep_mul_reg_glv: right, and both sub-scalars fit the regular recoding of bits(n) >> 1 bits *)
+(* (the analogue of RegClass, here guaranteed by the size of the GLV split)                  *)
+InvGlvReg == (go /\ alg = "glv_reg") =>
+    \A lam \in Lambdas : \A k \in KSet : LET r == MulRegGlv(k, lam) IN
+        /\ Chk(r = Exp(k), <<"lam", lam, Tag(k, r)>>)
+        /\ Chk(GlvRegFits(RecGlv(Mod(k, N), EndomBasis(lam))), <<"glv split too long for bn_rec_reg", N, W, lam, k>>)
 
 (* two-scalar algorithms *)
 TagP(k, m, q, got) == <<alg, "N", N, "W", W, "P", P, "Q", q, "k", k, "m", m, "got", got, "exp", ExpSim(k, m, q)>>
 Pair(F(_, _, _)) == \A q \in QBases : \A k \in KPair, m \in KPair :
                         LET r == F(k, m, q) IN Chk(r = ExpSim(k, m, q), TagP(k, m, q, r))
-InvSimInter == alg = "sim_inter" => Pair(MulSimInter)
-InvSimJoint == alg = "sim_joint" => Pair(MulSimJoint)
-InvSimLot   == alg = "sim_lot"   => Pair(MulSimLot)
-InvSimTrick == alg = "sim_trick" =>
+InvSimInter == (go /\ alg = "sim_inter") => Pair(MulSimInter)
+InvSimJoint == (go /\ alg = "sim_joint") => Pair(MulSimJoint)
+InvSimLot   == (go /\ alg = "sim_lot") => Pair(MulSimLot)
+InvSimTrick == (go /\ alg = "sim_trick") =>
     \A q \in QBases : \A k \in KPair, m \in KPair :
         LET r == MulSimTrick(k, m, q) IN
         IF TrickClass(k, m) THEN Chk(r = ExpSim(k, m, q), TagP(k, m, q, r))
         ELSE Chk(r \in {ERR, UNDEF}, TagP(k, m, q, r))
 
-Counted == Cnt(IF alg \in PairAlgs THEN Cardinality(KPair) * Cardinality(KPair) * Cardinality(QBases)
-               ELSE Cardinality(KSet))
+Counted == go => Cnt(CASE alg = "rec_jsf" -> (2 * N + 1) * (2 * N + 1)
+                          [] alg \in PairAlgs \ {"rec_jsf"} -> Cardinality(KPair) * Cardinality(KPair) * Cardinality(QBases)
+                          [] alg \in {"rec_naf", "rec_slw", "rec_win"} -> Cardinality(RecRange)
+                          [] alg = "rec_reg" -> Cardinality(RecRange) \div 2
+                          [] alg = "tab" -> 1
+                          [] alg = "lwreg" -> Cardinality(KSet \cup RegExtra)
+                          [] OTHER -> Cardinality(KSet))
 =============================================================================
